@@ -83,6 +83,7 @@ func cmdCheck(argv []string) int {
 	dirFlag := fs.String("dir", "", "override module dir")
 	timeout := fs.Int("timeout", 0, "per-solver timeout (s)")
 	verbose := fs.Bool("v", false, "verbose")
+	skipPath := fs.String("skip", "", "json list of sweep obligations that are undecided on the unchanged tree (not solved, not claimed)")
 	fs.Parse(argv)
 	t0 := time.Now()
 	cfgs := map[string]PropConfig{}
@@ -161,6 +162,21 @@ func cmdCheck(argv []string) int {
 		}
 		units = append(units, eng.verifyUnit(fn, ct, nil, ""))
 	}
+	// zero-annotation no-panic sweeps
+	for _, sw := range eng.db.Sweeps {
+		if !hasProp(sw.Props, *prop) && *prop != "ALL" {
+			continue
+		}
+		for _, su := range eng.sweepUnits(sw) {
+			if onlyRe != nil && !onlyRe.MatchString(eng.unitName(su.fn)) {
+				continue
+			}
+			if *verbose {
+				fmt.Fprintf(os.Stderr, "sweep unit %s\n", eng.unitName(su.fn))
+			}
+			units = append(units, eng.verifyUnit(su.fn, su.ct, nil, ""))
+		}
+	}
 	scratch, err := os.MkdirTemp("", "govc-")
 	if err != nil {
 		fmt.Fprintln(os.Stderr, err)
@@ -182,6 +198,7 @@ func cmdCheck(argv []string) int {
 		} else {
 			for _, o := range u.VC.obligations {
 				o.Props = u.Props
+				o.Sweep = u.Ct.Sweep
 				if u.Ct.Expect == "fail" {
 					o.Expect = "canary"
 				}
@@ -208,7 +225,25 @@ func cmdCheck(argv []string) int {
 	if workers < 2 {
 		workers = 2
 	}
-	solveAll(obls, scratch, to, workers, *tier == "thorough")
+	skip := map[string]bool{}
+	if *skipPath != "" {
+		var names []string
+		if data, err := os.ReadFile(*skipPath); err == nil {
+			json.Unmarshal(data, &names)
+		}
+		for _, n := range names {
+			skip[n] = true
+		}
+	}
+	var toSolve []*Obligation
+	for _, o := range obls {
+		if o.Sweep && skip[o.Name] {
+			o.Status = "undecided-baseline"
+			continue
+		}
+		toSolve = append(toSolve, o)
+	}
+	solveAll(toSolve, scratch, to, workers, *tier == "thorough")
 	// per-unit tallies; canary units must have at least one failing obligation
 	byUnit := map[string][]*Obligation{}
 	for _, o := range obls {
@@ -261,6 +296,9 @@ func cmdCheck(argv []string) int {
 	writeResult(*out, res)
 	nfail := 0
 	for _, o := range final {
+		if o.Status == "undecided-baseline" {
+			continue
+		}
 		if o.Status != "discharged" {
 			nfail++
 			fmt.Printf("FAILED %s [%s] %s :: %s\n", o.Name, o.Status, o.Pos, o.Desc)
@@ -307,6 +345,57 @@ func writeResult(path string, r *Result) {
 	os.MkdirAll(filepath.Dir(path), 0o755)
 	data, _ := json.MarshalIndent(r, "", " ")
 	os.WriteFile(path, data, 0o644)
+}
+
+type sweepUnit struct {
+	fn *ssa.Function
+	ct *FuncContract
+}
+
+// sweepUnits synthesises `nopanic` contracts (parameters non-nil) for every
+// function declared in the listed files that has no explicit contract.
+func (e *Engine) sweepUnits(sw Sweep) []sweepUnit {
+	files := map[string]bool{}
+	for _, f := range sw.Files {
+		files[f] = true
+	}
+	var fns []*ssa.Function
+	for _, fn := range e.funcIndex {
+		if fnPkgPath(fn) != sw.PkgPath || len(fn.Blocks) == 0 || fn.Parent() != nil || fn.Synthetic != "" {
+			continue
+		}
+		if fn.TypeParams().Len() > 0 && len(fn.TypeArgs()) == 0 {
+			continue
+		}
+		pos := fn.Pos()
+		if o := fn.Origin(); o != nil {
+			pos = o.Pos()
+		}
+		if !pos.IsValid() || !files[filepath.Base(e.fset.Position(pos).Filename)] {
+			continue
+		}
+		if _, has := e.db.Funcs[e.fullKey(fn)]; has {
+			continue
+		}
+		fns = append(fns, fn)
+	}
+	sort.Slice(fns, func(i, j int) bool { return e.fullKey(fns[i]) < e.fullKey(fns[j]) })
+	var out []sweepUnit
+	for _, fn := range fns {
+		ct := &FuncContract{Key: e.funcKey(fn), PkgPath: sw.PkgPath, Kind: "func", Loops: map[int]*LoopSpec{}, Src: sw.Src, NoPanic: true, Props: sw.Props, Sweep: true, UnboxNonNil: sw.UnboxNonNil}
+		for i, p := range fn.Params {
+			if p.Name() == "" || p.Name() == "_" {
+				continue
+			}
+			switch p.Type().Underlying().(type) {
+			case *types.Pointer, *types.Interface, *types.Map, *types.Signature, *types.Chan:
+				_ = i
+				ct.Requires = append(ct.Requires, Clause{Text: p.Name() + " != nil", Src: sw.Src})
+			}
+		}
+		out = append(out, sweepUnit{fn, ct})
+	}
+	return out
 }
 
 type implUnit struct {
